@@ -977,3 +977,58 @@ Example located_example :
 ") (mkpos 1 2 0 false) (s "Field 'a' is not defined") false = s "/w/q.graphql:2:3
 " ++ rest.
 Proof. eexists. vm_compute. reflexivity. Qed.
+
+(** * every structured diagnostic of the json document names a file of the store, with the position the error carries *)
+
+Lemma json_check_diag_of files k e :
+  json_check_diag (check_error_json files (k, e))
+  = Some match located_file files e with
+         | Some (f, pos) => [mk_diag (Some k) (f_path f) (u32 (p_line pos)) (u32 (p_col pos))]
+         | None => []
+         end.
+Proof.
+  unfold check_error_json. destruct (located_file files e) as [[f pos]|]; destruct k; reflexivity.
+Qed.
+
+Lemma collect_check_diags files l :
+  collect json_check_diag (map (check_error_json files) l)
+  = Some (flat_map (fun ke => match located_file files (snd ke) with
+                              | Some (f, pos) => [mk_diag (Some (fst ke)) (f_path f) (u32 (p_line pos)) (u32 (p_col pos))]
+                              | None => []
+                              end) l).
+Proof.
+  induction l as [|[k e] r IH]; [reflexivity|]. cbn [map collect flat_map fst snd].
+  rewrite json_check_diag_of, IH. reflexivity.
+Qed.
+
+Lemma located_file_in files e f pos : located_file files e = Some (f, pos) -> In f files /\ e_pos e = Some pos.
+Proof.
+  unfold located_file. destruct (e_pos e) as [q|]; [|discriminate]. destruct (p_builtin q); [discriminate|].
+  unfold get_file. destruct (nth_error files (N.to_nat (p_file q))) eqn:E; [|discriminate].
+  intro H. inversion H; subst. split; [eapply nth_error_In; eauto|reflexivity].
+Qed.
+
+Theorem json_diagnostics_name_store_files p code out err w :
+  run p = Exit code out err w -> pj_format p = Json ->
+  exists t ds, parse_json out = Some t /\ json_diags t = Some ds
+    /\ forall d, In d ds ->
+         exists f k e pos, In f (snd (run_cli_impl p)) /\ f_path f = d_path d
+                           /\ In (k, e) (st_check (snd (fst (run_cli_impl p)))) /\ d_kind d = Some k
+                           /\ e_pos e = Some pos /\ d_line d = u32 (p_line pos) /\ d_col d = u32 (p_col pos).
+Proof.
+  intros H Hf. destruct (run_exit p code out err w H) as (r & x & files & cerr & E & _ & _ & R).
+  rewrite Hf in R. pose proof (render_json _ _ _ _ _ _ _ _ R) as ->.
+  exists (json_tree files x cerr). rewrite E. cbn [fst snd].
+  rewrite json_tree_members. unfold json_diags, jfield.
+  rewrite !jget_app, jget_error_member by reflexivity.
+  unfold check_member. destruct (existsb (str_eqb CHECK) (st_run x)).
+  - cbn [jget]. change (str_eqb (s "check") (s "check")) with true. cbn iota. cbn [jfield jget].
+    change (str_eqb (s "errors") (s "errors")) with true. cbn iota.
+    rewrite collect_check_diags. eexists. split; [apply parse_print_json|]. split; [reflexivity|].
+    intros d Hd. apply in_flat_map in Hd as ([k e] & Hin & Hd). cbn [fst snd] in Hd.
+    destruct (located_file files e) as [[f pos]|] eqn:EL; [|contradiction].
+    destruct Hd as [<-|[]]. destruct (located_file_in files e f pos EL) as [Hf' Hp].
+    exists f, k, e, pos. cbn. repeat split; auto.
+  - cbn [jget]. rewrite jget_generate_member by reflexivity.
+    exists []. split; [apply parse_print_json|]. split; [reflexivity|]. intros d [].
+Qed.
